@@ -42,3 +42,19 @@ proof fn lemma_xor_inj(b: u32, c: u8, d: u8)
 {
     assert((b ^ (c as u32)) == (b ^ (d as u32)) ==> c == d) by(bit_vector);
 }
+
+// the window after one more block (block_len == 256): hi grows by one block, lo grows by one block iff the window was full
+proof fn lemma_lo_step(h0: BuildHelper, h1: BuildHelper)
+    requires h0.block_len == 256, h1.block_len == 256, h1.num_blocks == h0.num_blocks + 1, h1.num_free_blocks == h0.num_free_blocks,
+    ensures h_hi(h1) == h_hi(h0) + 256,
+        h0.num_blocks >= h0.num_free_blocks ==> h_lo(h0) == (h0.num_blocks - h0.num_free_blocks) * 256 && h_lo(h1) == h_lo(h0) + 256
+            && h_lo(h0) / 256 == h0.num_blocks - h0.num_free_blocks,
+        h0.num_blocks < h0.num_free_blocks ==> h_lo(h0) == 0 && h_lo(h1) == 0,
+{
+    let nb = h0.num_blocks as int; let nf = h0.num_free_blocks as int;
+    assert((nb + 1) * 256 == nb * 256 + 256) by (nonlinear_arith);
+    if nb >= nf {
+        assert((nb + 1 - nf) * 256 == (nb - nf) * 256 + 256) by (nonlinear_arith);
+        assert(((nb - nf) * 256) / 256 == nb - nf) by (nonlinear_arith);
+    }
+}
